@@ -224,12 +224,12 @@ def folding_specs():
 
 
 def specs(tier: str):
-    sub = families.c01_specs(tier, kmode="all", max_inputs=30 if tier == "quick" else 130)
+    sub = families.c01_specs(tier, kmode="all", max_inputs=30 if tier == "quick" else 130, lean=True)
     return sub + bundled_specs() + folding_specs()
 
 
 def run(tier: str) -> int:
-    b = families.C01_BOUNDS[tier]
+    b = families.c01_bounds(tier, lean=True)
     return gc.run_model_check(
         C06(), specs(tier), tier, "exploration",
         bounds=[{"top": [{"n": n, "modifiers": list(m), "trivia": list(t)} for n, m, t in b["top"]], "contexts": [{"hole_size": h, "trivia": list(t)} for h, t in b["ctx"]],
